@@ -167,6 +167,7 @@ func run(root, id, tier string) int {
 	}
 	pkgDir := filepath.Join(root, "props", strings.ToLower(id))
 	cfg := cfgs[id]
+	_ = os.RemoveAll(filepath.Join(root, "replay", id)) // replay files of earlier runs are stale
 
 	// known findings: which listed ones still reproduce
 	knownOut := filepath.Join(scratch, "known.json")
